@@ -1,6 +1,6 @@
-"""Concretise solver models into real Python objects, run the REAL function under CPython, and evaluate
-contract clauses on what it did.  Used for (a) replaying counterexamples, (b) the differential check of the
-encoding against CPython on every feasible path."""
+"""Concretise solver models into real Python objects, run the REAL function under CPython, and evaluate the
+contract's own clauses on what it did.  Used for (a) replaying counterexamples, (b) the differential check of
+the encoding against CPython, (c) native search for a failing input."""
 import fractions
 import importlib
 import math
@@ -11,16 +11,20 @@ import z3
 from . import z as Z
 from .engine import *
 from .contracts import Spec, ObjView, N
-from .calls import eval_clause, views_of, _attach_trace
-from .repo import FunctionInfo
+from .calls import eval_clause, views_of, _attach_trace, exc_class_of
+from .repo import FunctionInfo, ExternalRef as ER
+from .concrete import HeapBuilder, holds
 
 
 class NotConcretisable(Exception):
     pass
 
 
-class StubPool:
-    """a well-behaved pool: plain attributes; every attribute store is recorded"""
+LOG = []  # global, ordered event log of the stub collaborators of the current run
+
+
+class StubBase:
+    """stub collaborator: plain attributes; attribute stores and declared method calls are logged in order"""
 
     def __init__(self, **kw):
         object.__setattr__(self, "_stores", [])
@@ -29,15 +33,46 @@ class StubPool:
 
     def __setattr__(self, k, v):
         self._stores.append((k, v))
+        LOG.append(("store", self, k, v))
         object.__setattr__(self, k, v)
 
     def __repr__(self):
-        return "StubPool(%s)" % ", ".join("%s=%r" % (k, v) for k, v in self.__dict__.items() if k != "_stores")
+        return "%s(%s)" % (type(self).__name__, ", ".join("%s=%r" % (k, v) for k, v in self.__dict__.items() if not k.startswith("_")))
+
+
+StubPool = StubBase
+
+
+class RecordingCallable:
+    def __init__(self, kind, result=None, name="fn"):
+        self.kind, self.result, self.name = kind, result, name
+
+    def __call__(self, *a, **k):
+        LOG.append((self.kind, self) + tuple(a))
+        if isinstance(self.result, BaseException):
+            raise self.result
+        return self.result
+
+    def __repr__(self):
+        return "<%s %s -> %r>" % (self.kind, self.name, self.result)
 
 
 def make_stub_class(ty):
     """a stub class for an abstract collaborator; registered as a virtual subclass of the declared interfaces"""
-    cls = type("Stub" + ty.name, (StubPool,), {})
+    ns = {}
+    for mname, mcon in ty.methods.items():
+        def method(self, *a, _m=mname, _c=mcon, **k):
+            LOG.append((_m, self) + tuple(a))
+            return getattr(_c, "stub_result", None)
+
+        ns[mname] = method
+    bases = [StubBase]
+    for k in getattr(ty, "isa", []):
+        modname, cname = k.split(":")
+        real = getattr(importlib.import_module(modname), cname)
+        if hasattr(real, "register"):
+            continue
+    cls = type("Stub" + ty.name, tuple(bases), ns)
     for k in getattr(ty, "isa", []):
         modname, cname = k.split(":")
         real = getattr(importlib.import_module(modname), cname)
@@ -51,21 +86,28 @@ def make_stub_class(ty):
 _stub_classes = {}
 
 
+def stub_class(ty):
+    sc = _stub_classes.get(ty.name)
+    if sc is None:
+        sc = _stub_classes[ty.name] = make_stub_class(ty)
+    return sc
+
+
 def frac_of(term):
     return fractions.Fraction(term.numerator_as_long(), term.denominator_as_long())
 
 
 def exact_float(fr):
-    f = float(fr)
-    return fractions.Fraction(f) == fr
+    return fractions.Fraction(float(fr)) == fr
 
 
 class Concretiser:
-    def __init__(self, E, model, heap, dyadic_required=True):
+    def __init__(self, E, model, heap):
         self.E, self.m, self.heap = E, model, heap
         self.objs = {}  # id -> python object
         self.types = {}  # id -> shape
         self.inexact = False
+        self.blank = set()
 
     def ev(self, t):
         return self.m.eval(t, model_completion=True)
@@ -73,6 +115,8 @@ class Concretiser:
     def value(self, term, ty=None):
         v = z3.simplify(self.ev(term))
         d = v.decl().name()
+        if isinstance(ty, TOpt):
+            ty = None if d == "none" else ty.inner
         if d == "none":
             return None
         if d == "boolv":
@@ -102,6 +146,18 @@ class Concretiser:
             raise NotConcretisable("no heap array for field %s" % name)
         return z3.Select(arr, z3.IntVal(oid))
 
+    def seq_items(self, oid, elem_types=None, elem=None):
+        if elem_types is None:
+            n = z3.simplify(self.ev(self.field(oid, "$len"))).as_long()
+            if n < 0 or n > 64:
+                raise NotConcretisable("sequence length %d" % n)
+        items = self.field(oid, "$item")
+        out = []
+        for k in range(n if elem_types is None else len(elem_types)):
+            ety = elem_types[k] if elem_types is not None else elem
+            out.append(self.value(z3.Select(items, z3.IntVal(k)), ety))
+        return out
+
     def obj(self, oid, ty):
         if oid in self.objs:
             return self.objs[oid]
@@ -113,44 +169,40 @@ class Concretiser:
             o = object.__new__(real)
             self.objs[oid] = o
             self.types[oid] = ty
-            for fname, fty in ty.fields.items():
-                object.__setattr__(o, fname, self.value(self.field(oid, fname), fty))
+            if oid not in self.blank:
+                for fname, fty in ty.fields.items():
+                    object.__setattr__(o, fname, self.value(self.field(oid, fname), fty))
             return o
         if isinstance(ty, TAbs):
-            sc = _stub_classes.get(ty.name)
-            if sc is None:
-                sc = _stub_classes[ty.name] = make_stub_class(ty)
-            o = sc()
+            o = stub_class(ty)()
             self.objs[oid] = o
             self.types[oid] = ty
             for fname, fty in ty.fields.items():
                 object.__setattr__(o, fname, self.value(self.field(oid, fname), fty))
             o._stores.clear()
             return o
+        if isinstance(ty, TTuple):
+            o = tuple(self.seq_items(oid, elem_types=ty.elems))
+            self.objs[oid] = o
+            self.types[oid] = ty
+            return o
+        if isinstance(ty, TSeq):
+            items = self.seq_items(oid, elem=ty.elem)
+            if ty.kind == "tuple":
+                o = tuple(items)
+            elif ty.kind == "dict-items":
+                o = dict(items)
+            else:
+                o = list(items)
+            self.objs[oid] = o
+            self.types[oid] = ty
+            return o
+        if isinstance(ty, TFn):
+            o = RecordingCallable(getattr(ty.contract, "event_kind", "call"), getattr(ty.contract, "stub_result", None), "f%d" % oid)
+            self.objs[oid] = o
+            self.types[oid] = ty
+            return o
         raise NotConcretisable("object of shape %s" % (ty.describe() if ty else None))
-
-
-def py_to_term(v, rev):
-    if v is None:
-        return Z.NONE
-    if isinstance(v, bool):
-        return Z.mk_bool(v)
-    if isinstance(v, int):
-        return Z.mk_int(v)
-    if isinstance(v, float):
-        if v == math.inf:
-            return Z.POS_INF
-        if v == -math.inf:
-            return Z.NEG_INF
-        if v != v:
-            return Z.NAN
-        fr = fractions.Fraction(v)
-        return Z.mk_flt(z3.RealVal("%d/%d" % (fr.numerator, fr.denominator)))
-    if isinstance(v, str):
-        return Z.mk_str(v)
-    if id(v) in rev:
-        return Z.mk_ref(rev[id(v)])
-    raise NotConcretisable("observed value %r" % (v,))
 
 
 def how_to_call(fi, con):
@@ -161,57 +213,182 @@ def how_to_call(fi, con):
     def run(args):
         mod = importlib.import_module(modname)
         parts = qual.split(".")
-        names = [a.arg for a in fi.node.args.posonlyargs + fi.node.args.args]
-        if fi.cls is not None:
+        a = fi.node.args
+        names = [x.arg for x in a.posonlyargs + a.args]
+        kw = {x.arg: args[x.arg] for x in a.kwonlyargs if x.arg in args}
+        star = list(args[a.vararg.arg]) if a.vararg is not None and a.vararg.arg in args else []
+        if fi.cls is not None and "staticmethod" not in fi.decorators:
             self_obj = args[names[0]]
-            rest = [args[n] for n in names[1:]]
-            kw = {a.arg: args[a.arg] for a in fi.node.args.kwonlyargs if a.arg in args}
+            rest = [args[n] for n in names[1:]] + star
             if parts[-1] == "getter":
                 return getattr(self_obj, parts[-2])
             if parts[-1] == "setter":
                 return setattr(self_obj, parts[-2], rest[0])
-            if parts[-1] == "__init__":
-                real = getattr(mod, parts[0])
-                return getattr(real, "__init__")(self_obj, *rest, **kw)
-            return getattr(type(self_obj), parts[-1])(self_obj, *rest, **kw)
+            real = getattr(mod, parts[0])
+            f = real.__dict__.get(parts[1]) or getattr(real, parts[1])
+            r = f(self_obj, *rest, **kw)
+            return _drive(r)
+        if fi.cls is not None:
+            real = getattr(mod, parts[0])
+            return _drive(getattr(real, parts[1])(*[args[n] for n in names] + star, **kw))
         f = getattr(mod, parts[0])
-        kw = {a.arg: args[a.arg] for a in fi.node.args.kwonlyargs if a.arg in args}
-        return f(*[args[n] for n in names], **kw)
+        return _drive(f(*[args[n] for n in names] + star, **kw))
 
     return run
 
 
-def snapshot_objects(conc):
-    snap = {}
-    for oid, o in conc.objs.items():
-        ty = conc.types[oid]
-        snap[oid] = {f: getattr(o, f, None) for f in ty.fields}
-    return snap
+def _drive(r):
+    """run a coroutine returned by an async function under a stub of trio.sleep (logged, never really sleeping)"""
+    import inspect
+
+    if not inspect.iscoroutine(r):
+        return r
+    raise NotConcretisable("coroutine function: native run needs an event loop driver")
 
 
-def run_real(E, con, fi, bound, model, heap0, ctx):
-    """concretise the inputs of a model, run the real function; returns a dict describing the concrete run"""
+def _event_terms(spec, hb, log):
+    out = []
+    for entry in log:
+        kind = entry[0]
+        args = [hb.term(x) for x in entry[1:5]]
+        out.append(spec.event(kind, *args))
+    return out
+
+
+def run_and_check(E, con, fi, bound, model, heap0, want=None):
+    """concretise the model's inputs, run the real function, evaluate the contract's clauses on the real outcome.
+    returns info dict with 'violated': list of violated clause labels (or ['raises'])"""
+    global LOG
+    ctx = Ctx(E, [], "replay-eval")
     conc = Concretiser(E, model, heap0)
+    if con.new_object:
+        sv = bound[con.new_object]
+        conc.blank.add(z3.simplify(model.eval(Z.Val.id(sv.t), model_completion=True)).as_long())
     args = {}
     for name, sv in bound.items():
         if isinstance(sv, SV):
             args[name] = conc.value(sv.t, sv.ty)
         else:
             raise NotConcretisable("parameter %s is an engine-level value %r" % (name, sv))
-    new_obj = getattr(con, "new_object", None)
-    if new_obj:
-        # constructor: start from a blank instance
-        o = args[new_obj]
-        for k in list(vars(o)):
-            object.__delattr__(o, k)
-    pre = snapshot_objects(conc)
-    inputs_repr = {k: repr(v) for k, v in args.items()}
+    hb0 = HeapBuilder(ctx)
+    cb0 = {name: SV(hb0.encode(args[name], bound[name].ty), bound[name].ty) for name in args}
+    old_h = hb0.heap()
+    info = {"inputs": {k: _describe(v) for k, v in args.items()}, "inexact_floats": conc.inexact}
+    LOG = []
+    del LOG[:]
     runner = how_to_call(fi, con)
-    outcome = {"inputs": inputs_repr, "inexact_floats": conc.inexact}
+    kind = "return"
+    result = exc = None
+    try:
+        result = runner(args)
+    except NotConcretisable:
+        raise
+    except BaseException as e:  # noqa
+        kind, exc = "raise", e
+    log = list(LOG)
+    # re-encode every reachable object in its post-state, keeping the pre-state ids
+    hb1 = HeapBuilder(ctx, preset=hb0.ids, next_id=hb0.next, keep=hb0.keep)
+    cb1 = {}
+    for name in args:
+        cb1[name] = SV(hb1.encode(args[name], bound[name].ty), bound[name].ty)
+    new_h = hb1.heap()
+    spec = Spec(ctx, old_h, new_h)
+    evs = _event_terms(spec, hb1, log)
+    tr = z3.K(z3.IntSort(), spec.event("none"))
+    for i, e in enumerate(evs):
+        tr = z3.Store(tr, z3.IntVal(i), e)
+    spec.tr, spec.trlen, spec.tr_old_len = tr, z3.IntVal(len(evs)), z3.IntVal(0)
+    views = views_of(spec, cb1, new_h)
+    info["observed"] = {"kind": kind, "events": [(e[0],) + tuple(_describe(x) for x in e[1:]) for e in log][:20]}
+    info["observed"]["post_state"] = {k: _describe(v) for k, v in args.items()}
+    violated = []
+    if kind == "raise":
+        info["observed"]["exception"] = "%s: %s" % (type(exc).__name__, exc)
+        allowed = False
+        for cname, fn in con.raises.items():
+            try:
+                real = ER(cname).native() if ":" not in cname else getattr(importlib.import_module(cname.split(":")[0]), cname.split(":")[1])
+            except Exception:
+                continue
+            if isinstance(exc, real):
+                conds = eval_clause(fn, spec, views, exc=None)
+                if not conds or holds(z3.And(*conds.values())) is True:
+                    allowed = True
+        if not allowed:
+            violated.append("raises")
+        info["violated"] = violated
+        return info
+    info["observed"]["result"] = _describe(result)
+    if con.never_returns:
+        violated.append("never-returns")
+    rv = None
+    if con.result is not None and not isinstance(con.result, TNone):
+        rty = ctx.resolve_ty(con.result)
+        rt = hb1.encode(result, rty)
+        if holds(rty.inv(rt, goal=True)) is not True:
+            violated.append("result-shape")
+        rv = spec.view(SV(rt, rty), new_h)
+    clauses = eval_clause(con.ensures, spec, views, result=rv)
+    for lab, f in clauses.items():
+        if want is not None and lab not in want:
+            continue
+        r = holds(f)
+        if r is False:
+            violated.append(lab)
+    info["violated"] = violated
+    return info
+
+
+def _describe(v, depth=0):
+    if isinstance(v, (int, float, str, bool)) or v is None:
+        return repr(v)
+    if isinstance(v, (list, tuple)):
+        return "%s%s%s" % ("[" if isinstance(v, list) else "(", ", ".join(_describe(x, depth + 1) for x in v), "]" if isinstance(v, list) else ")")
+    if isinstance(v, dict):
+        return "{%s}" % ", ".join("%s: %s" % (_describe(k, depth + 1), _describe(x, depth + 1)) for k, x in v.items())
+    if isinstance(v, (StubBase, RecordingCallable)):
+        return repr(v)
+    if depth > 2:
+        return "<%s>" % type(v).__name__
+    d = getattr(v, "__dict__", None)
+    if d is not None:
+        return "%s(%s)" % (type(v).__name__, ", ".join("%s=%s" % (k, _describe(x, depth + 1)) for k, x in d.items() if not k.startswith("__")))
+    return repr(v)
+
+
+# ---- kept for the differential check -------------------------------------------------------------
+def snapshot_objects(conc):
+    snap = {}
+    for oid, o in conc.objs.items():
+        ty = conc.types[oid]
+        if isinstance(ty, (TObj, TAbs)):
+            snap[oid] = {f: getattr(o, f, None) for f in ty.fields}
+    return snap
+
+
+def run_real(E, con, fi, bound, model, heap0, ctx):
+    """concretise the inputs of a model, run the real function; returns a dict describing the concrete run"""
+    global LOG
+    conc = Concretiser(E, model, heap0)
+    if con.new_object:
+        sv = bound[con.new_object]
+        conc.blank.add(z3.simplify(model.eval(Z.Val.id(sv.t), model_completion=True)).as_long())
+    args = {}
+    for name, sv in bound.items():
+        if isinstance(sv, SV):
+            args[name] = conc.value(sv.t, sv.ty)
+        else:
+            raise NotConcretisable("parameter %s is an engine-level value %r" % (name, sv))
+    pre = snapshot_objects(conc)
+    del LOG[:]
+    outcome = {"inputs": {k: _describe(v) for k, v in args.items()}, "inexact_floats": conc.inexact}
+    runner = how_to_call(fi, con)
     try:
         r = runner(args)
         outcome["kind"] = "return"
         outcome["result"] = r
+    except NotConcretisable:
+        raise
     except BaseException as e:  # noqa
         outcome["kind"] = "raise"
         outcome["exception"] = e
@@ -219,107 +396,6 @@ def run_real(E, con, fi, bound, model, heap0, ctx):
     outcome["post"] = snapshot_objects(conc)
     outcome["pre"] = pre
     outcome["conc"] = conc
+    outcome["nevents"] = len(LOG)
     outcome["stores"] = {oid: list(getattr(o, "_stores", [])) for oid, o in conc.objs.items()}
     return outcome
-
-
-def concrete_heaps(ctx, conc, pre, post):
-    """z3 heaps (dict field -> array) describing the observed pre/post object states"""
-    rev = {id(o): oid for oid, o in conc.objs.items()}
-
-    def build(snap):
-        heap = {}
-        for oid, fields in snap.items():
-            for f, v in fields.items():
-                arr = heap.get(f)
-                if arr is None:
-                    arr = z3.K(z3.IntSort(), Z.NONE)
-                heap[f] = z3.Store(arr, z3.IntVal(oid), py_to_term(v, rev))
-        cls_arr = z3.K(z3.IntSort(), z3.IntVal(0))
-        for oid, ty in conc.types.items():
-            if isinstance(ty, TObj):
-                cls_arr = z3.Store(cls_arr, z3.IntVal(oid), z3.IntVal(ctx.E.classes.cid(ty.cls)))
-        heap["$cls"] = cls_arr
-        return heap
-
-    return build(pre), build(post), rev
-
-
-def check_clause_concretely(E, con, fi, bound, model, heap0, ctx_factory, clause_kind, label):
-    """run the real code on the model's input and evaluate one contract clause on what it actually did.
-    returns dict(violated=bool|None, ...)"""
-    ctx = ctx_factory()
-    out = run_real(E, con, fi, bound, model, heap0, ctx)
-    conc = out["conc"]
-    old_h, new_h, rev = concrete_heaps(ctx, conc, out["pre"], out["post"])
-    # missing arrays default to the model's pre-state arrays
-    spec = Spec(ctx, old_h, new_h)
-    # events: stores recorded by stub collaborators, in order of occurrence per object
-    evs = []
-    for oid, stores in out["stores"].items():
-        for k, v in stores:
-            evs.append(spec.event("store", Z.mk_ref(oid), k, py_to_term(v, rev)))
-    tr = z3.K(z3.IntSort(), spec.event("none"))
-    for i, e in enumerate(evs):
-        tr = z3.Store(tr, z3.IntVal(i), e)
-    spec.tr, spec.trlen, spec.tr_old_len = tr, z3.IntVal(len(evs)), z3.IntVal(0)
-    cbound = {}
-    for name, sv in bound.items():
-        cbound[name] = SV(z3.simplify(model.eval(sv.t, model_completion=True)), sv.ty)
-    views = views_of(spec, cbound, new_h)
-    info = {"inputs": out["inputs"], "observed": {"kind": out["kind"]}, "inexact_floats": out["inexact_floats"]}
-    if out["kind"] == "return":
-        info["observed"]["result"] = repr(out["result"])
-    else:
-        info["observed"]["exception"] = out["exception_repr"]
-    info["observed"]["post_state"] = {str(oid): {f: repr(v) for f, v in fs.items()} for oid, fs in out["post"].items()}
-    info["observed"]["stores"] = {str(oid): [(k, repr(v)) for k, v in st] for oid, st in out["stores"].items() if st}
-    if clause_kind == "raises":
-        # the obligation said: nothing (or only the declared classes under their conditions) may escape
-        if out["kind"] != "raise":
-            info["violated"] = False
-            return info
-        exc = out["exception"]
-        allowed = False
-        for cname, fn in con.raises.items():
-            from .calls import exc_class_of
-            from .repo import ExternalRef as ER
-
-            k = cname
-            try:
-                real = ER(k).native() if ":" not in k else getattr(importlib.import_module(k.split(":")[0]), k.split(":")[1])
-            except Exception:
-                continue
-            if isinstance(exc, real):
-                conds = eval_clause(fn, spec, views, exc=None)
-                s = z3.Solver()
-                s.add(z3.Not(z3.And(*conds.values())) if conds else z3.BoolVal(False))
-                if s.check() == z3.unsat:
-                    allowed = True
-        info["violated"] = not allowed
-        return info
-    if out["kind"] != "return":
-        info["violated"] = None
-        info["note"] = "real function raised instead of returning on this input"
-        return info
-    res = out["result"]
-    rv = None
-    if con.result is not None:
-        rt = py_to_term(res, rev)
-        rv = spec.view(SV(rt, ctx.resolve_ty(con.result)), new_h)
-    if clause_kind == "result-shape":
-        rt = py_to_term(res, rev)
-        goal = ctx.resolve_ty(con.result).inv(rt, goal=True)
-    else:
-        clauses = eval_clause(con.ensures, spec, views, result=rv)
-        if label not in clauses:
-            info["violated"] = None
-            info["note"] = "clause %s not found" % label
-            return info
-        goal = clauses[label]
-    s = z3.Solver()
-    s.set("timeout", 10000)
-    s.add(z3.Not(goal))
-    r = s.check()
-    info["violated"] = True if r == z3.sat else False if r == z3.unsat else None
-    return info
